@@ -20,7 +20,7 @@ package netpoll
 //@ lockword locker.keychain[connecting] token heldC acquire 0 1 release 0
 //@ lockword locker.keychain[processing] token heldP acquire 0 1 release 0
 //@ lockword locker.keychain[flushing] token heldF acquire 0 1 release 0 stop 0 2
-//@ lockword FDOperator.state token opheld acquire 1 2 release 1
+//@ lockword FDOperator.state token opheld acquire 1 2 release 1 also 0 1 also 1 0
 //@ nonzero locker.keychain[closing]
 //@ monotone connection.state
 
@@ -84,6 +84,7 @@ package netpoll
 //@ iface Poll.Control
 //@   params operator event
 //@   results err
+//@   requires operator != nil
 //@   note epoll_ctl: touches no connection state; registering marks the slot in use; its errors are kernel errnos
 //@   ensures err != nil ==> typeis(err, syscall.Errno) && err#val >= 1 && err#val < 256
 //@   modifies FDOperator.state
@@ -155,6 +156,8 @@ package netpoll
 //@   threadlocal !tkReleased && !tkSawClosing && !tkTriedAfterClosing && !tkSawLen && !tkTriedAfterLen && !tkLenZeroSeen && cbRuns == 0
 //@   rely locker.keychain[closing]: (was != 0 ==> now != 0) && now >= 0 && now <= 2
 //@   rely connection.state: now >= was && now <= 2 && (was == 0 && c.heldC ==> now == 0)
+//@   rely locker.keychain[processing]: (c.heldP ==> now == was) && now >= 0 && now <= 1
+//@   rely UnsafeLinkBuffer.length: now >= 0
 //@   ensures (!c.heldP || c.sealed_heldP) && !c.heldC && cbRuns <= 1
 //@   ensures !c.heldP ==> tkReleased && tkSawClosing && (tkClosingVal != 0 ==> tkTriedAfterClosing) && (onRequest != nil ==> tkSawLen && (tkLenVal > 0 ==> tkTriedAfterLen))
 //@   onpanic (!c.heldP || c.sealed_heldP) && cbRuns <= 1
@@ -238,13 +241,14 @@ package netpoll
 
 //@ iface Poll.Free
 //@   params operator
-//@   requires operator.owned
+//@   requires operator != nil && operator.owned && !operator.opheld
 //@   ensures !operator.owned
-//@   modifies operator.owned
+//@   modifies operator.owned, operatorCache.freelist, operatorCache.freelocked, operatorCache.ofl, FDOperator.slot, FDOperator.state, mem:int32,
+//@     FDOperator.FD, FDOperator.OnRead, FDOperator.OnWrite, FDOperator.OnHup, FDOperator.Inputs, FDOperator.InputAck, FDOperator.Outputs, FDOperator.OutputAck, FDOperator.poll, FDOperator.detached
 //@ iface Poll.Alloc
 //@   results operator
 //@   ensures operator != nil && operator.owned && operator.detached == 0
-//@   modifies nothing
+//@   modifies FDOperator.owned, operatorCache.first, operatorCache.cache, operatorCache.locked, operatorCache.ocl, FDOperator.slot, FDOperator.rank, FDOperator.cacheof, FDOperator.next, FDOperator.poll, mem:*FDOperator
 
 //@ func (*locker).stop
 //@   property C05 C08
